@@ -242,8 +242,11 @@ func cmdWorker(args []string, sweep bool) {
 			wo.Workload = ew
 			finish(exitViolation)
 		}
-		if tw != nil && w.Index%*tupleEvery == 0 {
+		if tw != nil {
 			for _, t := range rep.Tuples {
+				if w.Index%*tupleEvery != 0 && !t.Always {
+					continue
+				}
 				tw.WriteString(mustJSON(t))
 				tw.WriteByte('\n')
 			}
